@@ -190,25 +190,26 @@ struct BlockExec {
     /// parent block hash / genesis as a fallback) and chained over each executed
     /// transaction. This is the post-state root this node computed.
     state_hash: Hash,
-    /// Hash of the block, once known: from the start for [`InProgressBlock::Known`],
-    /// from [`ExecutionEngine::end_block`] on for [`InProgressBlock::Pending`].
+    /// Hash of the block, set by [`ExecutionEngine::end_block`]: `None` while the block is still
+    /// streaming and `state_hash` is only a partial state.
     block_hash: Option<BlockHash>,
 }
 
 impl DummyExecution {
-    /// Looks up the execution state of the block `block_id`.
+    /// Looks up the execution state of the block `block_id`, once that block has ended.
     ///
-    /// A block tracked under its slot only ([`InProgressBlock::Pending`]) matches as long as
-    /// its hash is not known to differ: another block of the same slot is not this block.
+    /// A block that is still streaming has no final state yet, and for one tracked under its
+    /// slot only ([`InProgressBlock::Pending`]) not even a hash: another block of the same slot
+    /// is not this block.
     fn lookup(&self, block_id: &BlockId) -> Option<&BlockExec> {
         let (slot, hash) = block_id;
-        if let Some(exec) = self.blocks.get(&InProgressBlock::Known(block_id.clone())) {
-            return Some(exec);
-        }
-        let exec = self.blocks.get(&InProgressBlock::Pending(*slot))?;
+        let exec = match self.blocks.get(&InProgressBlock::Known(block_id.clone())) {
+            Some(exec) => exec,
+            None => self.blocks.get(&InProgressBlock::Pending(*slot))?,
+        };
         match &exec.block_hash {
-            Some(h) if h != hash => None,
-            _ => Some(exec),
+            Some(h) if h == hash => Some(exec),
+            _ => None,
         }
     }
 }
@@ -266,16 +267,12 @@ impl ExecutionEngine for DummyExecution {
                     .as_hash()
                     .clone()
             });
-        let block_hash = match &id {
-            InProgressBlock::Pending(_) => None,
-            InProgressBlock::Known((_, hash)) => Some(hash.clone()),
-        };
         self.blocks.insert(
             id,
             BlockExec {
                 tx_count: 0,
                 state_hash,
-                block_hash,
+                block_hash: None,
             },
         );
     }
@@ -304,12 +301,17 @@ impl ExecutionEngine for DummyExecution {
     }
 
     fn end_block(&mut self, block_id: BlockId) {
-        // the hash of a block tracked under its slot only is known from here on
-        let known = self
+        // the block has ended: from here on it has a final state (and, if it was tracked under
+        // its slot only, a known hash)
+        let key = if self
             .blocks
-            .contains_key(&InProgressBlock::Known(block_id.clone()));
-        if !known
-            && let Some(exec) = self.blocks.get_mut(&InProgressBlock::Pending(block_id.0))
+            .contains_key(&InProgressBlock::Known(block_id.clone()))
+        {
+            InProgressBlock::Known(block_id.clone())
+        } else {
+            InProgressBlock::Pending(block_id.0)
+        };
+        if let Some(exec) = self.blocks.get_mut(&key)
             && exec.block_hash.is_none()
         {
             exec.block_hash = Some(block_id.1.clone());
